@@ -12,3 +12,9 @@ pub fn vx_msg() -> (r: String) { unimplemented!() }
 pub assume_specification<'a, T: PartialEq<U>, U, A: core::alloc::Allocator>[ <Vec<T, A> as PartialEq<&'a [U]>>::eq ](a: &Vec<T, A>, b: &&[U]) -> (r: bool)
     ensures a@.len() != (*b)@.len() ==> !r,
             a@.len() == 0 && (*b)@.len() == 0 ==> r;
+
+// core::cmp::{max, min} through cmp_spec
+pub assume_specification<T: core::cmp::Ord>[ core::cmp::max::<T> ](a: T, b: T) -> (r: T)
+    ensures T::obeys_cmp_spec() ==> r == (if b.cmp_spec(&a) == core::cmp::Ordering::Less { a } else { b });
+pub assume_specification<T: core::cmp::Ord>[ core::cmp::min::<T> ](a: T, b: T) -> (r: T)
+    ensures T::obeys_cmp_spec() ==> r == (if b.cmp_spec(&a) == core::cmp::Ordering::Less { b } else { a });
